@@ -539,7 +539,7 @@ func leafWritten(c *engine.Ctx, id, rel string) {
 		wrote, through := false, false
 		for i := range p.Events {
 			e := &p.Events[i]
-			if e.Kind == engine.EvWrite && e.LHS == "$nodemap[$pathelems[0]]" {
+			if e.Kind == engine.EvWrite && isLeafSlot(e.LHS) {
 				wrote = true
 			}
 			// the accessor conversion appears in the assigned expression or in a call that feeds it
@@ -606,7 +606,7 @@ func leafListWidth(c *engine.Ctx, id, tree string) {
 					wideKnown, wide = true, e.Lit.Mask == 4
 				}
 			case engine.EvWrite:
-				if e.LHS == "$nodemap[$pathelems[0]]" {
+				if isLeafSlot(e.LHS) {
 					rhs = e.RHS
 				}
 			case engine.EvCall:
@@ -777,4 +777,19 @@ func signChanging(c *engine.Ctx, id string, pkgs []string) {
 			})
 		}
 	}
+}
+
+// isLeafSlot: a write into the node map handed to handleLeafValue (its first parameter) under a key that is a
+// parameter of the function or the first element of one — `nodemap[pathelems[0]]`, or `nodemap[leafName]` when the
+// caller evaluates the name; the parameter names are the maintainers' business.
+func isLeafSlot(lhs string) bool {
+	if !strings.HasPrefix(lhs, "$") || !strings.HasSuffix(lhs, "]") {
+		return false
+	}
+	i := strings.Index(lhs, "[")
+	if i < 0 {
+		return false
+	}
+	key := lhs[i+1 : len(lhs)-1]
+	return strings.HasPrefix(key, "$") && (!strings.ContainsAny(key, "[(") || strings.HasSuffix(key, "[0]") && strings.Count(key, "[") == 1)
 }
